@@ -310,7 +310,9 @@ impl Repo {
                 if *annotated {
                     // tagger date differs from the commit date on purpose
                     let t = self.model.commits[c].time + 777_777;
-                    self.git(&["tag", "-a", "-m", "annotated", &nm, &h], Some(t))?;
+                    // messages as release tooling writes them: some have lines that are only digits
+                    let msg = ["annotated", "release\n\n4711\n", "2020\n", "build\n123456\nnotes", "1\n", "Release 1.2.3\n\nbuild 4711"][(name + c) % 6];
+                    self.git(&["tag", "-a", "-m", msg, &nm, &h], Some(t))?;
                 } else {
                     self.git(&["tag", &nm, &h], None)?;
                 }
